@@ -586,6 +586,49 @@ func factsC17() {
 		"userPanel.updateUsageQueue", "userPanel.updateUsageQueueForOne", "userPanel.commitUpdate",
 		"ActiveUser.CloseSession", "ActiveUser.GetSession", "ActiveUser.closeAllSessions", "ActiveUser.NumSession",
 		"serveSession", "dispatchConnection"}
+	// any OTHER function of the package that operates one of the bookkeeping mutexes itself (a helper added later, such
+	// as the refused connection's clean-up of C15) is listed too: otherwise a call to it would count as lock-free
+	var extra []string
+	if p := pkgs[sv]; p != nil {
+		known := map[string]bool{"dispatchConnection": true}
+		for _, k := range listed {
+			known[k] = true
+		}
+		for key, fn := range p.funcs {
+			if known[key] || fn.Body == nil {
+				continue
+			}
+			direct := false
+			ast.Inspect(fn.Body, func(n ast.Node) bool {
+				if _, ok := n.(*ast.FuncLit); ok {
+					return false
+				}
+				if c, ok := n.(*ast.CallExpr); ok {
+					if _, ok := w.lockOp(c); ok {
+						direct = true
+					}
+				}
+				return true
+			})
+			if direct {
+				extra = append(extra, key)
+			}
+		}
+		sort.Strings(extra)
+		for _, key := range extra {
+			nm := key
+			if i := strings.Index(key, "."); i >= 0 {
+				nm = key[i+1:]
+			}
+			if prev, clash := listed[nm]; clash {
+				w.bad = append(w.bad, "two lock-taking functions named "+nm+": "+prev+", "+key)
+				continue
+			}
+			listed[nm] = key
+		}
+		// order: the helpers first in the dump, then the operations that may call them (the walker inlines by name)
+		order = append(append([]string{}, order[:len(order)-2]...), append(extra, order[len(order)-2:]...)...)
+	}
 	var entries []string
 	total := 0
 	for _, k := range order {
